@@ -12,5 +12,9 @@ CONSTANTS
   StrongThroughLog = TRUE
   SignalConfig = TRUE
   SignalBarrier = TRUE
+  MaxSnaps = 0
+  SnapAtApplied = TRUE
+  InstallReplacesDb = TRUE
+  SignalRestore = TRUE
 SYMMETRY Sym
 INVARIANTS StateMachineSafety OneLeaderPerTerm ReadLin NoStuckRead ServedAfterProtocol
